@@ -183,6 +183,8 @@ pub fn c05() -> Outcome {
     let kinds_bounds: Vec<(Kind, Option<(f64, f64)>)> = vec![
         (Kind::Continuous, Some((-1.0, 2.0))), (Kind::Continuous, None), (Kind::Integer, Some((0.0, 3.0))), (Kind::Binary, None), (Kind::Binary, Some((0.0, 1.0))),
         (Kind::Continuous, Some((2.0, 5.0))), (Kind::Continuous, Some((-5.0, -2.0))), (Kind::Integer, Some((f64::NEG_INFINITY, 4.0))),
+        // an explicit bound equal to the protobuf default [0, 0] is a bound, not an unset field
+        (Kind::Continuous, Some((0.0, 0.0))), (Kind::Integer, Some((0.0, 0.0))), (Kind::Binary, Some((0.0, 0.0))), (Kind::Binary, Some((1.0, 1.0))),
     ];
     let deltas = [0.0, 5e-8, -5e-8, 1e-6, -1e-6, 3.0, -3.0];
     for (ki, (kind, bound)) in kinds_bounds.iter().enumerate() {
@@ -421,6 +423,14 @@ pub fn c08() -> Outcome {
             if v.is_err() != *vfail { return Outcome { cases: n, distinct: d.len(), fail: Some(format!("ParametricInstance::validate on '{name}': ok={}, expected ok={}{}", v.is_ok(), !vfail, v.err().map(|e| format!(" ({e})")).unwrap_or_default())) }; }
         }
     }
+    // typed view of an explicit bound equal to the protobuf default: [0, 0] stays [0, 0] for every kind
+    for kind in [Kind::Continuous, Kind::Integer, Kind::Binary] {
+        n += 1; d.insert(200 + kind as usize);
+        let i = inst(vec![dv(1, kind, Some((0.0, 0.0)))], f_of(F::Linear(lin(&[(1, 1.0)], 0.0))), vec![]);
+        let t = match ommx::Instance::try_from(i) { Ok(t) => t, Err(e) => return Outcome { cases: n, distinct: d.len(), fail: Some(format!("a {kind:?} variable with the explicit bound [0, 0] was rejected: {e}")) } };
+        let s = format!("{t:?}");
+        if !s.contains("Bound { lower: 0.0, upper: 0.0 }") && !s.contains("Bound { lower: -0.0, upper: 0.0 }") { return Outcome { cases: n, distinct: d.len(), fail: Some(format!("typed view of a {kind:?} variable with the explicit bound [0, 0] does not carry that bound: {s}")) }; }
+    }
     // typed view of unset bounds
     {
         n += 1;
@@ -493,7 +503,7 @@ pub fn rand_instance(r: &mut Rng, max_deg: usize) -> Instance {
     let mut ids: Vec<u64> = pool.to_vec(); r.shuffle(&mut ids); let nv = 2 + r.below(4); ids.truncate(nv);
     let dvs: Vec<DecisionVariable> = ids.iter().map(|&i| {
         let kind = r.pick(&[Kind::Continuous, Kind::Integer, Kind::Binary]);
-        let bound = if kind == Kind::Binary { if r.chance(1, 2) { None } else { Some((0.0, 1.0)) } } else { r.pick(&[None, Some((-3.0, 3.0)), Some((0.0, 4.0)), Some((f64::NEG_INFINITY, 5.0)), Some((-2.0, f64::INFINITY))]) };
+        let bound = if kind == Kind::Binary { r.pick(&[None, None, Some((0.0, 1.0)), Some((0.0, 0.0)), Some((1.0, 1.0))]) } else { r.pick(&[None, Some((-3.0, 3.0)), Some((0.0, 4.0)), Some((f64::NEG_INFINITY, 5.0)), Some((-2.0, f64::INFINITY)), Some((0.0, 0.0)), Some((2.0, 2.0))]) };
         dv(i, kind, bound) }).collect();
     let obj = rand_function(r, &ids, max_deg, false);
     let nc = r.below(4); let mut cids: Vec<u64> = vec![7, 3, 21, 4, 100]; r.shuffle(&mut cids);
